@@ -199,6 +199,13 @@ impl InputList {
                         alt_idx: start_idx,
                     });
                 }
+                Ok(Event::CData(_)) if event_idx_stack.is_empty() => {
+                    // a CDATA section is character data as well: outside the root element it is
+                    // not XML, and copied through it would precede (or follow) the root element
+                    return Err(SvgdxError::DocumentError(format!(
+                        "CDATA outside of any element at line {src_line}"
+                    )));
+                }
                 Ok(e) => events.push(InputEvent {
                     event: e.clone().into_owned(),
                     index,
